@@ -271,6 +271,13 @@ def feed_variants(make, chunks, observe_one, twin_stream: bytes = b""):
         tpos = [0]
         msgs, early = [], []
         for i, c in enumerate(chunks):
+            if feeder_name == "deepcopy-fork" and i == len(chunks) // 2:
+                import copy
+
+                try:
+                    r = copy.deepcopy(r)  # continue on a deep copy: no state may live outside the instance
+                except Exception:  # noqa: BLE001  (being copyable is not part of any property)
+                    pass
             if feeder_name == "bytearray-wiped":
                 buf = bytearray(c)
                 got = r.read(buf)
@@ -294,6 +301,6 @@ def feed_variants(make, chunks, observe_one, twin_stream: bytes = b""):
             early += [observe_one(m) for m in got]
             msgs += got
         return tuple(early), tuple(observe_one(m) for m in msgs)
-    for name in ("plain", "bytearray-wiped", "empty-chunks", "interleaved-twin", "stalled-link"):
+    for name in ("plain", "bytearray-wiped", "empty-chunks", "interleaved-twin", "stalled-link", "deepcopy-fork"):
         e, f = run(name)
         yield name, e, f
